@@ -178,6 +178,15 @@ pub fn run(ctx: &Ctx) -> i32 {
         subs.push(all_pairs(name, &rule, &items, &show, &lib_cmp, Some(&ref_cmp), None));
     }
 
+    // characters that Unicode calls numeric or alphabetic but rpm treats as separators
+    {
+        let alpha = vec!["1", "2", "a", ".", "٣", "²", "１", "é", "Ａ"];
+        let l = if ctx.thorough() { 4 } else { 3 };
+        let items = all_strings(&alpha, l);
+        let rule = format!("all ordered pairs of all {} strings of length ≤ {} over {:?} (Arabic-Indic digit, superscript two, full-width one and A: none of them is an ASCII digit or letter, all are separators to rpm); same oracles", items.len(), l, alpha);
+        subs.push(all_pairs("strings-unicode-digits", &rule, &items, &show, &lib_cmp, Some(&ref_cmp), None));
+    }
+
     // numeric segments around machine-integer widths, with and without leading zeros
     {
         let nums = [
@@ -230,6 +239,28 @@ pub fn run(ctx: &Ctx) -> i32 {
         Some(&evr_ref),
         Some(&evr_eq),
     ));
+
+    // components that themselves contain the separators of the textual form: equality must not be decided on joined text
+    {
+        let comps = all_strings(&["1", "a", "-", ":"], 2);
+        let mut items: Vec<(String, String, String)> = vec![];
+        for e in ["", "0", "1", "1:", ":"] {
+            for v in &comps {
+                for r in &comps {
+                    items.push((e.to_string(), v.clone(), r.clone()));
+                }
+            }
+        }
+        subs.push(all_pairs(
+            "evr-separators",
+            &format!("all ordered pairs of {} EVRs built with Evr::new from components that contain '-' and ':' themselves (5 epochs × {} versions × {} releases of ≤ 2 characters over {{1,a,-,:}}); same oracles; == ⇒ Equal", items.len(), comps.len(), comps.len()),
+            &items,
+            &evr_show,
+            &evr_lib,
+            Some(&evr_ref),
+            Some(&evr_eq),
+        ));
+    }
 
     // rpm_evr_compare on strings, against an independent split + the port
     let evr_strings = all_strings(&["0", "1", "a", ":", "-", "."], if ctx.thorough() { 5 } else { 4 });
